@@ -254,7 +254,13 @@ pub fn c17(out: &mut dyn Write, tier: &str, rng: &mut Rng, st: &mut Stats) {
         for i in (1..4).rev() { let j = rng.below(i as u64 + 1) as usize; perm.swap(i, j); }
         // multi-byte blanks (2, 3 and 4 bytes in UTF-8, and a non-ASCII digit): cells are counted in characters
         let blanks = ['.', '-', 'x', '_', ' ', '*', '\u{b7}', '\u{25a1}', '\u{1f7e6}', '\u{ff11}'];
-        let blank = *rng.pick(&blanks[..]);
+        let mut blank = *rng.pick(&blanks[..]);
+        // every other puzzle: any character of the planes in use (letters whose code point ends in the
+        // byte of an ASCII digit, box drawing, full-width forms, mathematical digits, ...)
+        if rng.chance(1, 2) {
+            let (lo, hi) = *rng.pick(&[(0x100u32, 0x17fu32), (0x2000, 0x206f), (0x2500, 0x257f), (0xff00, 0xffef), (0x1d7ce, 0x1d7ff), (0x3000, 0x303f), (0x660, 0x669), (0x130, 0x139), (0x2030, 0x2039), (0x10130, 0x10139)][..]);
+            if let Some(c) = char::from_u32(lo + rng.below((hi - lo + 1) as u64) as u32) { if !c.is_whitespace() && !c.is_ascii_digit() && !c.is_control() { blank = c; } }
+        }
         let keep = rng.below(17);
         let mut s = String::new();
         for (i, d) in base.iter().enumerate() {
@@ -281,7 +287,7 @@ pub fn c17(out: &mut dyn Write, tier: &str, rng: &mut Rng, st: &mut Stats) {
     let n3 = if tier == "thorough" { 50 } else { 4 };
     for _ in 0..n3 {
         let keep = 20 + rng.below(40);
-        let blank9 = *rng.pick(&['.', '.', '\u{b7}', '\u{25a1}'][..]);
+        let blank9 = *rng.pick(&['.', '.', '\u{b7}', '\u{25a1}', '\u{2534}', '\u{131}', '\u{ff30}'][..]);
         let mut s: String = solved9.chars().map(|c| if rng.below(81) < keep { c } else { blank9 }).collect();
         if rng.chance(1, 3) { let keep_chars = rng.below(82) as usize; s = s.chars().take(keep_chars).collect(); }
         cases.push((3, s));
